@@ -294,3 +294,74 @@ def run(ctx):
         term = ctx.og(g).of_local(0)
         ok = any(x.k == "field" and x.a[1] == "lowest_freed_instant" for x in A.walk(term)) and not any(x.k == "bin" for x in A.walk(term))
         ctx.ob("R-C05.5", g, "returns-watermark", ok, "get_seqno_safe_to_gc returns lowest_freed_instant unmodified" if ok else "get_seqno_safe_to_gc returns %s" % A.tstr(term))
+
+    # ---- R-C05.6 gc keeps every open registration and derives the watermark from the lowest retained instant
+    gcf = ctx.fn(TRACKER + "::gc", "R-C05.6")
+    if gcf:
+        og = ctx.og(gcf)
+        rt = [(b, t) for b, t in gcf.calls() if "dashmap::DashMap" in A.cname(t) and A.cname(t).endswith("::retain")]
+        cl = None
+        if rt:
+            cid = A.closure_of_operand(gcf, rt[0][1]["args"][1])
+            cl = F.fns.get(cid) if cid else None
+        if not cl:
+            ctx.ob("R-C05.6", gcf, "retain-closure-present", False, "gc does not prune the registry with DashMap::retain(closure)")
+        else:
+            cog = ctx.og(cl)
+            # (a) an entry whose count is > 0 is always retained
+            keep_ok = False
+            detail = "no test of the registration count against 0 in the retain closure"
+            for b, blk in enumerate(cl.blocks):
+                if blk["t"]["k"] != "switch" or blk["cleanup"]:
+                    continue
+                cmp_ = A.compare_switch(cl, b, cog)
+                if not cmp_:
+                    continue
+                pos = A.edges_where_less(cmp_, lambda t: t.k == "const" and t.a == ("int", 0),
+                                         lambda t: any(x.k == "param" and x.a[0] == 3 for x in A.walk(t)))
+                if pos is None:
+                    continue
+                vals = A.consts_at_return(cl, list(pos))
+                # the edge taken for count == 0 only may do anything; every edge on which count > 0 is possible must return true
+                op = cmp_[0]
+                exact = op in ("Gt", "Lt", "Ne", "Eq", "Le", "Ge")
+                keep_ok = vals == {("bool", True)} and exact and not (op in ("Ge", "Le"))
+                detail = "retain closure returns true on every path where the registration count is > 0" if keep_ok else \
+                    "an instant that still has open snapshots (count > 0) can be dropped from the registry (closure returns %s on the count>0 edge; comparison %s): the GC watermark then passes a live snapshot" % (sorted(map(str, vals)), op)
+            ctx.ob("R-C05.6", cl, "open-registrations-are-retained", keep_ok, detail)
+            # (b) lowest_retained is the running minimum over retained keys, updated for every retained entry
+            mins = [b for b, t in cl.calls() if A.cname(t) in ("std::cmp::Ord::min", "core::cmp::Ord::min", "std::cmp::min")]
+            maxs = [b for b, t in cl.calls() if A.cname(t).rsplit("::", 1)[-1] in ("max", "saturating_add", "wrapping_add")]
+            ok_min = bool(mins) and not maxs
+            if mins:
+                args = [cog.of_operand(a) for a in cl.term(mins[0])["args"]]
+                ok_min = ok_min and any(any(x.k == "field" and x.a[1] == "lowest_retained" for x in A.walk(a)) for a in args) and \
+                    any(any(x.k == "param" and x.a[0] == 2 for x in A.walk(a)) for a in args)
+            ctx.ob("R-C05.6", cl, "lowest-retained-is-running-minimum", ok_min,
+                   "lowest_retained := min(lowest_retained, k) over the retained instants" if ok_min else "the watermark candidate is not the minimum over the retained instants (min calls %d, max-like calls %d)" % (len(mins), len(maxs)))
+            # every retained entry takes part: whenever the closure can return true, the write to *lowest_retained happened
+            wr = [b for b, blk in enumerate(cl.blocks) if not blk["cleanup"] for st in blk["s"]
+                  if st["p"]["p"] == ["*"] and A.access_path(cog.of_local(st["p"]["l"])) == ("P1", "lowest_retained")]
+            skipped = A.consts_at_return(cl, [0], avoid=wr)
+            upd_ok = bool(wr) and skipped <= {("bool", False)}
+            ctx.ob("R-C05.6", cl, "every-retained-instant-lowers-the-candidate", upd_ok,
+                   "the closure returns true only on paths that updated lowest_retained" if upd_ok else "an instant can be retained (closure result %s) without taking part in the lowest-retained computation" % sorted(map(str, skipped)))
+        # (c) the watermark is derived from lowest_retained (never above it)
+        fm = [(b, t) for b, t in gcf.calls() if A.cname(t) == "std::sync::atomic::Atomic::<u64>::fetch_max"]
+        okw = False
+        detail = "gc does not fetch_max the watermark"
+        if fm:
+            val = og.of_operand(fm[0][1]["args"][1])
+            v2 = val
+            sub = None
+            if v2.k == "call" and v2.a[0].rsplit("::", 1)[-1] in ("saturating_sub", "wrapping_sub", "checked_sub"):
+                sub = v2
+                v2 = v2.a[1][0]
+            elif v2.k == "bin" and v2.a[0].startswith("Sub"):
+                sub = v2
+                v2 = v2.a[1]
+            grows = [x for x in A.walk(val) if (x.k == "bin" and x.a[0].startswith(("Add", "Mul"))) or (x.k == "call" and x.a[0].rsplit("::", 1)[-1] in ("saturating_add", "wrapping_add", "max"))]
+            from_lr = "lowest_retained" in A.tstr(val) or any(A.ends_with_field(x, "seqno") for x in A.walk(val))
+            okw = not grows and from_lr
+            detail = "watermark := fetch_max(%s)" % A.tstr(val)[:120] + ("" if okw else " — not derived from (or raised above) the lowest retained instant")
+        ctx.ob("R-C05.6", gcf, "watermark-from-lowest-retained", okw, detail)
